@@ -17,14 +17,20 @@ func vfH_C06_Faithful() {
 	vfSet("dpor", 1)
 	vfSet("preempt", vfParam("preempt", 100))
 	vfBegin()
+	// "other activity" never touches the key under test (index pre in cases 0 and 3, index 0 in cases
+	// 1 and 2): with two residents the third index is the key under test, so the other key is 1
+	otherKey := uint64(2)
+	if pre >= 2 {
+		otherKey = 1
+	}
 	other := func() {
 		switch vfChoice(vfParam("others", 4)) {
 		case 1:
-			mon.set(c, 2, 1, 0)
+			mon.set(c, otherKey, 1, 0)
 		case 2:
-			c.Del(2)
+			c.Del(otherKey)
 		case 3:
-			mon.get(c, 2)
+			mon.get(c, otherKey)
 		}
 	}
 	switch vfChoice(4) {
